@@ -21,16 +21,19 @@ pub fn def() -> MonitorDef {
 	MonitorDef { id: "C12", plan, run_case, finalize }
 }
 
+/// syscall-level cases (traced with strace): 2 x library file writer, 2 x the real `versatiles convert`
+pub const SYSCALL_CASES: u64 = 8;
+
 fn plan(tier: Tier, _seed: u64) -> Plan {
 	Plan {
-		cases: tier.pick(24, 200),
+		cases: tier.pick(24, 200) + SYSCALL_CASES,
 		shards: 12,
 		case_timeout_s: 1200,
 		level: "fault_enumeration",
-		rule: "one case = one recorded write trace (format versatiles | pmtiles x tile set x compression; one PMTiles / versatiles case with > 16384 tiles, i.e. leaf directories / several blocks). Crash points enumerated per trace: EVERY operation prefix k = 0..n (for the two traces with > 16384 tiles: every 7th prefix plus the first 50 and the last 200); every byte cut of operations up to 2 kB and of the last four operations (final header, directories / block index); first / last 64 bytes and every 97th byte of longer operations. One evaluation = one crash image opened with the real reader. Non-trivial crash point: a cut strictly inside the trace (not the empty and not the complete file); distinct by (trace fingerprint, operation index, byte cut)".into(),
+		rule: "one case = one recorded write trace (format versatiles | pmtiles x tile set x compression; one PMTiles / versatiles case with > 16384 tiles, i.e. leaf directories / several blocks). Crash points enumerated per trace: EVERY operation prefix k = 0..n (for the two traces with > 16384 tiles: every 50th prefix plus the first 20 and the last 300, byte cuts in the last 300 operations); every byte cut of operations up to 2 kB and of the last four operations (final header, directories / block index; up to 20 kB); first / last 64 bytes and every 97th byte of longer operations. One evaluation = one crash image opened with the real reader. Syscall level (8 cases): the file writer of the library and the real `versatiles convert` are run under strace; the openat / write / pwrite64 / lseek / ftruncate calls on the output file are replayed prefix by prefix with byte cuts of every write (the replay must reproduce the file on disk, otherwise the case is inconclusive). Non-trivial crash point: a cut strictly inside the trace (not the empty and not the complete file); distinct by (trace fingerprint, operation index, byte cut)".into(),
 		assumptions: vec![
 			"a crash leaves exactly the bytes of the completed operations plus a prefix of the interrupted one; regions never written read as zeros (sparse file semantics)".into(),
-			"operations reach the disk in program order (no reordering below the DataWriterTrait boundary); the strace-level flavour of the thorough tier covers the BufWriter layer of the real binary".into(),
+			"operation level: operations reach the disk in program order; syscall level: system calls take effect in the order strace logged them (no reordering below the kernel boundary, i.e. no lost page-cache write-back ordering)".into(),
 		],
 		min_evaluations: 5_000,
 		exhaustive: true,
@@ -44,6 +47,9 @@ fn finalize(_t: Tier, _p: &Plan, rep: &mut Report) {
 	}
 	if rep.counter("complete_images_opened_and_intact") == 0 {
 		rep.inconclusive("not even the complete files opened: the oracle saw no positive control");
+	}
+	if rep.counter("syscall_traces_versatiles") == 0 || rep.counter("syscall_traces_pmtiles") == 0 {
+		rep.inconclusive("no syscall-level trace was replayed");
 	}
 	if rep.counter("traces_with_leaf_directories") == 0 {
 		rep.inconclusive("no PMTiles trace with leaf directories");
@@ -88,7 +94,7 @@ impl DataWriterTrait for TraceWriter {
 	}
 }
 
-fn apply(image: &mut Vec<u8>, pos: u64, data: &[u8]) {
+pub fn apply(image: &mut Vec<u8>, pos: u64, data: &[u8]) {
 	let end = pos as usize + data.len();
 	if image.len() < end {
 		image.resize(end, 0);
@@ -96,11 +102,11 @@ fn apply(image: &mut Vec<u8>, pos: u64, data: &[u8]) {
 	image[pos as usize..end].copy_from_slice(data);
 }
 
-fn cuts(len: usize, near_end: bool) -> Vec<usize> {
+pub fn cuts(len: usize, near_end: bool) -> Vec<usize> {
 	if len == 0 {
 		return vec![];
 	}
-	if len <= 2048 || near_end {
+	if len <= 2048 || (near_end && len <= 20_000) {
 		return (1..len).collect();
 	}
 	let mut v: Vec<usize> = (1..64.min(len)).collect();
@@ -109,14 +115,14 @@ fn cuts(len: usize, near_end: bool) -> Vec<usize> {
 	v
 }
 
-enum Outcome {
+pub enum Outcome {
 	Rejected,
 	Panicked(guard::PanicRec),
 	OpenedIntact,
 	OpenedWrong(String),
 }
 
-fn try_image(format: &str, image: &[u8], ts: &TileSet) -> Outcome {
+pub fn try_image(format: &str, image: &[u8], ts: &TileSet) -> Outcome {
 	let r = guard::catch_strict_thread(|| {
 		guard::block_on(async {
 			let reader = DataReaderBlob::from(image.to_vec());
@@ -150,6 +156,13 @@ fn try_image(format: &str, image: &[u8], ts: &TileSet) -> Outcome {
 
 fn run_case(cx: &CaseCtx, rep: &mut Report) {
 	let mut rng = cx.rng();
+	let op_cases = cx.tier.pick(24, 200);
+	if cx.case >= op_cases {
+		let k = cx.case - op_cases;
+		let format = if k % 2 == 0 { "versatiles" } else { "pmtiles" };
+		crate::mon::c12sys::run_syscall_case(cx, rep, format, k % 4 >= 2);
+		return;
+	}
 	let format = if cx.case % 2 == 0 { "versatiles" } else { "pmtiles" };
 	let big = cx.case < 2;
 	let ts = if big {
@@ -221,14 +234,14 @@ fn run_case(cx: &CaseCtx, rep: &mut Report) {
 			cx.progress(&format!("{format} op {k}/{n}"));
 		}
 		let mut points: Vec<(Option<usize>, Vec<u8>)> = vec![];
-		// (the two traces with > 16384 tiles are thinned: every 7th prefix plus the first 50 and last 200)
-		if (k < n || n == 0) && (!thin || k % 7 == 0 || k < 50 || k + 200 >= n) {
+		// (the two traces with > 16384 tiles are thinned: every 50th prefix plus the first 20 and last 300)
+		if (k < n || n == 0) && (!thin || k % 50 == 0 || k < 20 || k + 300 >= n) {
 			points.push((None, image.clone()));
 		}
 		if k < n {
 			let Op::Write { pos, data } = &ops[k];
 			let near_end = k + 4 >= n;
-			if !(thin && !near_end && k % 50 != 0 && data.len() < 2048) {
+			if !(thin && k + 300 < n) {
 				for c in cuts(data.len(), near_end) {
 					let mut img = image.clone();
 					apply(&mut img, *pos, &data[..c]);
